@@ -429,6 +429,14 @@ for i, tier, cap, eb in ((I(8, 1), 'quick', 900, 32), (I(8, 2), 'thorough', 7200
     for sg, T in (('u', i.U), ('i', i.I)):
         add(H('C08', f"c08_ilog_{sg}_{i.tag}", 'c08_ilog', f"{i.bits + 2}, {T}, {i.digit}, {i.n}", tier=tier, cap=cap, inst=i.label, core=(i.bits == 8),
               funcs=f"{'BUint' if sg == 'u' else 'BInt'} checked_ilog/ilog, checked_ilog2/ilog2, checked_ilog10/ilog10", bound='all (self, base) pairs'))
+for i, k, tier in ((I(64, 2), 1, 'quick'), (I(8, 5), 3, 'quick'), (I(64, 3), 1, 'quick'), (I(32, 3), 5, 'thorough'), (I(16, 5), 2, 'thorough'), (I(64, 5), 7, 'thorough'), (I(8, 17), 1, 'thorough'), (I(64, 2), 63, 'thorough')):
+    add(H('C08', f"c08_pow_pow2_{i.tag}_k{k}", 'c08_pow_pow2', f"36, {i.U}, {i.I}, {i.digit}, {i.n}, {k}", tier=tier, cap=1800, inst=i.label, core=False, mem_gb=8,
+          funcs='BUint/BInt overflowing/checked/wrapping/saturating_pow with a concrete power-of-two base', bound=f'bases 2^{k} and -2^{k}, exponent over all of u32; symbolic bit index'))
+for i, k, top, tier in ((I(64, 3), 3, '1', 'quick'), (I(64, 2), 7, '0x7fffffffffffffff', 'quick'), (I(8, 5), 2, '0x80', 'quick'), (I(64, 3), 5, 'u64::MAX', 'quick'), (I(32, 3), 4, '0x10', 'quick'),
+                       (I(64, 5), 9, '0x100', 'thorough'), (I(16, 5), 3, '0x7fff', 'thorough'), (I(8, 17), 6, '0x01', 'thorough'), (I(64, 2), 63, '0x8000000000000000', 'thorough')):
+    add(H('C08', f"c08_ilog_pow2_{i.tag}_k{k}", 'c08_ilog_pow2', f"{max(i.n, 12) + 4}, {i.U}, {i.I}, {i.digit}, {i.n}, {k}, {top}", tier=tier, cap=1800, inst=i.label, core=False, mem_gb=8,
+          funcs='BUint/BInt checked_ilog / ilog with a concrete power-of-two base (iilog recursion: constant squarings, divisions by constants)',
+          bound=f'all values whose most significant digit is {top} (all lower digits symbolic), base 2^{k}; exact result floor((bits - 1) / {k})'))
 both('C08', 'c08_ilog2_lin', LIN_Q, LIN_T, group='checked_ilog2 / ilog2 (highest set bit)', bound='all values, symbolic bit index')
 
 
@@ -827,7 +835,7 @@ OUTSIDE = {
     'C02': ['exact full-operand products above 16 bits (digit product abstracted as an uninterpreted function there)', 'N > 4'],
     'C03': ['Knuth algorithm D on full operands above 16 bits (boundary alphabet instead)', 'widths above 24 bits in the quick tier'],
     'C04': ['panic message text', 'multiplying / dividing operators above 8 bits (quick tier)'],
-    'C08': ['pow and ilog(base) above 8 bits (quick tier), above 16 bits (thorough tier)'],
+    'C08': ['pow with a symbolic base and ilog(base) above 8 bits (quick tier), above 16 bits (thorough tier); above that only pow for the bases +-2^k (all exponents) and ilog for the bases 2^k (values with a concrete top digit) are decided'],
     'C11': ['N >= 2 in the quick tier, N >= 3 in every tier', 'values above 65535 for 32/64-bit digit types'],
     'C12': ['widths above 128 bits (192 thorough)', 'decimal and exponent forms above 8 bits (32 bits thorough)', 'the precision field and the {:x?} / {:X?} flags (not in the property)',
             'the text core::fmt produces from the (sign, prefix, numeral) triple (pad_integral is trusted; its model is validated natively)'],
@@ -921,7 +929,7 @@ CLAIMS = {
                   'panic message text; multiplying/dividing operators above 8 bits (16 thorough); shifts by bnum-typed amounts (C17).',
                   'the overflow flag of the overflowing_* twin (whose exactness is C01/C02/C05/C08) and the explicit amount range'),
     'C08': _claim('overflowing/checked/wrapping/saturating/strict pow for all 8-bit bases and exponents over ALL of u32 (signed and unsigned), ilog/ilog2/ilog10 and their checked forms for all 8-bit '
-                  '(self, base) pairs, and ilog2 as highest-set-bit for 8..320-bit types.',
+                  '(self, base) pairs, ilog2 as highest-set-bit for 8..320-bit types, and pow for the concrete bases +-2^k with the exponent over all of u32 at 40..192 bits (exponent loop, sticky flag, parity re-signing, landing exactly on MIN).',
                   'pow and ilog(base) above 8 bits in the quick tier (16 bits in the thorough tier).',
                   'independent LSB-first square-and-multiply in exact-with-cap arithmetic; b^k <= x < b^(k+1)'),
     'C11': _claim('to_radix_le/to_radix_be/to_str_radix produce the canonical numeral (digits < radix, no leading zero, [0] for zero, lowercase, Horner value == input, leading - for negatives) and '
